@@ -21,6 +21,8 @@ func init() { extraCmds["run"] = cmdRun }
 // fixed point projections (DESIGN.md section 5)
 
 var nonFinite []string // names of non finite values met while projecting the current event
+var outOfRange []string // water-family values that do not fit the projection (machinery, not a property matter)
+var outOfRangeN []string // nitrogen-family values that do not fit the projection
 
 const limbBase = 1000000
 
@@ -46,7 +48,11 @@ func bigToLimb(name string, x *big.Float, exp int) limb {
 	h, l := new(big.Int), new(big.Int)
 	h.DivMod(i, b, l) // Euclidean: 0 <= l < b
 	if !h.IsInt64() || h.Int64() > 2000000000 || h.Int64() < -2000000000 {
-		nonFinite = append(nonFinite, name+":range")
+		if exp == eW {
+			outOfRange = append(outOfRange, name)
+		} else {
+			outOfRangeN = append(outOfRangeN, name)
+		}
 		return limb{}
 	}
 	return limb{h.Int64(), l.Int64()}
@@ -71,6 +77,15 @@ func sumLimb(name string, xs []float64, f float64, exp int) limb {
 		acc.Add(acc, new(big.Float).SetPrec(512).Mul(bigOf(x), bigOf(f)))
 	}
 	return bigToLimb(name, acc, exp)
+}
+
+// diffLimb projects the exact difference a - b.
+func diffLimb(name string, a, b float64, exp int) limb {
+	if math.IsNaN(a) || math.IsInf(a, 0) || math.IsNaN(b) || math.IsInf(b, 0) {
+		nonFinite = append(nonFinite, name)
+		return limb{}
+	}
+	return bigToLimb(name, new(big.Float).SetPrec(512).Sub(bigOf(a), bigOf(b)), exp)
 }
 
 func prodLimb(name string, a, b float64, exp int) limb {
@@ -128,6 +143,7 @@ type runTracer struct {
 	lastZeit  int
 	dayEvents map[string]bool
 	skip      map[string]bool
+	preCnt    [3]float64 // SICKER, CAPSUM, DRAISUM before Water() (sub.pre)
 }
 
 func (t *runTracer) emit(e ev) {
@@ -141,6 +157,20 @@ func (t *runTracer) emit(e ev) {
 		nonFinite = nil
 	} else {
 		e["finite"] = true
+	}
+	if len(outOfRange) > 0 {
+		e["inrange"] = false
+		e["outofrange"] = strings.Join(outOfRange, ",")
+		outOfRange = nil
+	} else {
+		e["inrange"] = true
+	}
+	if len(outOfRangeN) > 0 {
+		e["inrangeN"] = false
+		e["outofrangeN"] = strings.Join(outOfRangeN, ",")
+		outOfRangeN = nil
+	} else {
+		e["inrangeN"] = true
 	}
 	t.w.Write(e)
 	t.w.Flush() // the model may end the process at any point (log.Fatal): keep the trace complete on disk
@@ -380,7 +410,7 @@ func (t *runTracer) probe(point string, g *hermes.GlobalVarsMain, extra ...inter
 		} else {
 			e["S"] = storage("Spre", g.WG[1][:n], g.DZ.Num)
 		}
-		e["sicker"], e["capsum"], e["draisum"] = lim("SICKER", g.SICKER, eW), lim("CAPSUM", g.CAPSUM, eW), lim("DRAISUM", g.DRAISUM, eW)
+		t.preCnt = [3]float64{g.SICKER, g.CAPSUM, g.DRAISUM}
 	case "sub.water":
 		zeit, subd, wdt := extra[0].(int), extra[1].(int), extra[2].(float64)
 		l := extra[3].(*hermes.WaterSharedVars)
@@ -393,7 +423,7 @@ func (t *runTracer) probe(point string, g *hermes.GlobalVarsMain, extra ...inter
 		e["q1n"] = lim("Q1[N]", g.Q1[n], eW)
 		e["q1out"] = lim("Q1[OUTN]", g.Q1[g.OUTN], eW)
 		e["qdr"] = lim("QDRAIN", g.QDRAIN, eW)
-		e["sicker"], e["capsum"], e["draisum"] = lim("SICKER", g.SICKER, eW), lim("CAPSUM", g.CAPSUM, eW), lim("DRAISUM", g.DRAISUM, eW)
+		e["dSicker"], e["dCapsum"], e["dDraisum"] = diffLimb("dSICKER", g.SICKER, t.preCnt[0], eW), diffLimb("dCAPSUM", g.CAPSUM, t.preCnt[1], eW), diffLimb("dDRAISUM", g.DRAISUM, t.preCnt[2], eW)
 		e["gwaufw"] = prodLimb("GWAUF*wdt", l.GWAUF, wdt, eW)
 		e["WG1"] = fxs("WG1", g.WG[1][:n], 9)
 		e["TP"] = fxs("TP", g.TP[:n], 9)
@@ -505,8 +535,15 @@ func cmdRun(args []string) error {
 	skip := fs.String("skip", "", "comma separated probe points to skip")
 	id := fs.String("id", "r1", "run id")
 	subEvery := fs.Bool("subcrop-every", false, "log sub.crop in every sub-step")
+	appendTo := fs.Bool("append", false, "append to the trace file (the driver wrote a header line)")
 	fs.Parse(args)
-	w, err := core.NewNDWriter(*out)
+	var w *core.NDWriter
+	var err error
+	if *appendTo {
+		w, err = core.AppendNDWriter(*out)
+	} else {
+		w, err = core.NewNDWriter(*out)
+	}
 	if err != nil {
 		return err
 	}
